@@ -156,3 +156,255 @@ Proof.
     + apply is_digit_false in Hd. rewrite loop_other in H by auto.
       exfalso; exact (res_neq _ H).
 Qed.
+
+Lemma pton4_sound s b : inet_pton4 s = (0%Z, b) -> dotted_quad s b.
+Proof.
+  unfold inet_pton4. intros H.
+  apply sound_octet_start in H; [|lia].
+  destruct H as (s0 & v0 & r0 & -> & O0 & [->|[r0' ->]] & H).
+  { cbn in H. exfalso; exact (res_neq _ H). }
+  rewrite loop_dot in H. cbn [N.eqb N.add Pos.eqb Pos.add Pos.succ app] in H.
+  apply sound_octet_start in H; [|lia].
+  destruct H as (s1 & v1 & r1 & -> & O1 & [->|[r1' ->]] & H).
+  { cbn in H. exfalso; exact (res_neq _ H). }
+  rewrite loop_dot in H. cbn [N.eqb N.add Pos.eqb Pos.add Pos.succ app] in H.
+  apply sound_octet_start in H; [|lia].
+  destruct H as (s2 & v2 & r2 & -> & O2 & [->|[r2' ->]] & H).
+  { cbn in H. exfalso; exact (res_neq _ H). }
+  rewrite loop_dot in H. cbn [N.eqb N.add Pos.eqb Pos.add Pos.succ app] in H.
+  apply sound_octet_start in H; [|lia].
+  destruct H as (s3 & v3 & r3 & -> & O3 & [->|[r3' ->]] & H).
+  - cbn in H. inversion H; subst.
+    exists s0, s1, s2, s3, v0, v1, v2, v3. rewrite app_nil_r.
+    repeat (split; [first [reflexivity | assumption]|]). reflexivity.
+  - rewrite loop_dot in H. cbn in H. exfalso; exact (res_neq _ H).
+Qed.
+
+(* every result is (0, four bytes) or (UV_EINVAL, nothing written) *)
+Lemma pton4_loop_codes s : forall done cur saw k,
+  pton4_loop s done cur saw k = (UV_EINVAL, []) \/
+  exists b, pton4_loop s done cur saw k = (0%Z, b).
+Proof.
+  induction s as [|c s IH]; intros; cbn [pton4_loop].
+  - destruct (k <? 4); eauto.
+  - destruct (is_digit c).
+    + destruct (saw && (cur =? 0)); auto. destruct (255 <? _); auto.
+      destruct saw; auto. destruct (4 <? k + 1); auto.
+    + destruct ((c =? 46) && saw); auto. destruct (k =? 4); auto.
+Qed.
+
+Theorem pton4_iff_grammar s :
+  (forall b, inet_pton4 s = (0%Z, b) <-> dotted_quad s b) /\
+  ((forall b, ~ dotted_quad s b) -> inet_pton4 s = (UV_EINVAL, [])).
+Proof.
+  split.
+  - intros b; split; [apply pton4_sound | apply pton4_complete].
+  - intros Hn. destruct (pton4_loop_codes s [] 0 false 0) as [H|[b H]]; [exact H|].
+    exfalso. apply (Hn b). apply pton4_sound. exact H.
+Qed.
+
+(* a string with a NUL inside is cut there by the public entry point *)
+Lemma cstr_no_nul s : ~ In 0 (cstr s).
+Proof.
+  induction s as [|c s IH]; simpl; auto.
+  destruct (c =? 0) eqn:E; simpl; auto.
+  intros [H|H]; auto. subst. discriminate.
+Qed.
+
+Lemma cstr_id s : ~ In 0 s -> cstr s = s.
+Proof.
+  induction s as [|c s IH]; simpl; auto. intros H.
+  destruct (c =? 0) eqn:E.
+  - apply N.eqb_eq in E. subst. tauto.
+  - f_equal. apply IH. tauto.
+Qed.
+
+Theorem uv_inet_pton4_iff_grammar s b :
+  uv_inet_pton AF_INET s = (0%Z, b) <-> dotted_quad (cstr s) b.
+Proof. unfold uv_inet_pton. cbn. apply pton4_iff_grammar. Qed.
+
+(* ------------------------------------------------------------------ *)
+(* uv__strscpy                                                         *)
+(* ------------------------------------------------------------------ *)
+Lemma nlen_app a b : nlen (a ++ b) = nlen a + nlen b.
+Proof. unfold nlen. rewrite app_length. lia. Qed.
+
+Lemma nlen_cons (a : N) b : nlen (a :: b) = 1 + nlen b.
+Proof. unfold nlen. simpl length. lia. Qed.
+
+Lemma strscpy_fits s : forall i n acc,
+  i = nlen acc -> i + nlen s < n ->
+  strscpy_loop s i n acc =
+  ((if SSIZE_MAX <? i + nlen s then UV_E2BIG else Z.of_N (i + nlen s)), acc ++ s ++ [0]).
+Proof.
+  induction s as [|c s IH]; intros i n acc Hi Hn; cbn [strscpy_loop].
+  - unfold nlen in Hn; simpl in Hn. assert (E : n <=? i = false) by (apply N.leb_gt; lia).
+    rewrite E. unfold nlen. simpl length. rewrite N.add_0_r. reflexivity.
+  - rewrite nlen_cons in *. assert (E : n <=? i = false) by (apply N.leb_gt; lia).
+    rewrite E. rewrite IH.
+    + rewrite <- app_assoc. simpl. replace (i + 1 + nlen s) with (i + (1 + nlen s)) by lia.
+      reflexivity.
+    + rewrite nlen_app. unfold nlen at 2. simpl. lia.
+    + lia.
+Qed.
+
+Lemma removelast_snoc {A} (l : list A) x : removelast (l ++ [x]) = l.
+Proof. apply removelast_last. Qed.
+
+Lemma firstn_len_app {A} (l r : list A) k : k = length l -> firstn k (l ++ r) = l.
+Proof.
+  intros ->. rewrite <- (Nat.add_0_r (length l)), firstn_app_2. simpl. apply app_nil_r.
+Qed.
+
+Lemma strscpy_trunc s : forall i n acc,
+  i = nlen acc -> i <= n -> 0 < n -> n <= i + nlen s ->
+  strscpy_loop s i n acc = (UV_E2BIG, firstn (N.to_nat n - 1) (acc ++ s) ++ [0]).
+Proof.
+  induction s as [|c s IH]; intros i n acc Hi Hle Hn Hge; cbn [strscpy_loop].
+  - unfold nlen in Hge; simpl in Hge. assert (i = n) by lia. subst n.
+    rewrite N.leb_refl. assert (E : i =? 0 = false) by (apply N.eqb_neq; lia). rewrite E.
+    rewrite app_nil_r. f_equal. f_equal.
+    destruct acc as [|a acc] using rev_ind; [unfold nlen in Hi; simpl in Hi; lia|].
+    rewrite removelast_snoc. rewrite Hi, nlen_app. unfold nlen. simpl length.
+    symmetry. apply firstn_len_app. lia.
+  - destruct (n <=? i) eqn:E.
+    + apply N.leb_le in E. assert (i = n) by lia. subst n.
+      assert (E0 : i =? 0 = false) by (apply N.eqb_neq; lia). rewrite E0.
+      f_equal. f_equal.
+      destruct acc as [|a acc] using rev_ind; [unfold nlen in Hi; simpl in Hi; lia|].
+      rewrite removelast_snoc. rewrite Hi, nlen_app. unfold nlen. simpl length.
+      rewrite <- app_assoc. symmetry. apply firstn_len_app. lia.
+    + apply N.leb_gt in E. rewrite IH.
+      * rewrite <- app_assoc. reflexivity.
+      * rewrite nlen_app. unfold nlen at 2. simpl. lia.
+      * lia.
+      * lia.
+      * rewrite nlen_cons in Hge. lia.
+Qed.
+
+Theorem strscpy_spec s n :
+  let r := uv_strscpy s n in
+  let t := cstr s in
+  nlen (snd r) <= n /\
+  (n = 0 -> r = (0%Z, [])) /\
+  (0 < n -> nlen t < n -> nlen t <= SSIZE_MAX -> r = (Z.of_N (nlen t), t ++ [0])) /\
+  (0 < n -> n <= nlen t -> r = (UV_E2BIG, firstn (N.to_nat n - 1) t ++ [0])).
+Proof.
+  cbv zeta. unfold uv_strscpy.
+  destruct (N.eq_dec n 0) as [->|Hn].
+  - assert (E : strscpy_loop (cstr s) 0 0 [] = (0%Z, [])) by (destruct (cstr s); reflexivity).
+    rewrite E. repeat split; auto; try lia. unfold nlen; simpl; lia.
+  - destruct (N.lt_ge_cases (nlen (cstr s)) n) as [Hlt|Hge].
+    + rewrite strscpy_fits by (auto; simpl; lia). simpl app. rewrite N.add_0_l.
+      repeat split; try lia.
+      * cbn [snd]. rewrite nlen_app. unfold nlen at 2. simpl. lia.
+      * intros _ _ Hs. apply N.ltb_ge in Hs. rewrite Hs. reflexivity.
+    + rewrite strscpy_trunc by (auto; simpl; lia). simpl app.
+      repeat split; try lia.
+      cbn [snd]. rewrite nlen_app. unfold nlen. simpl length. rewrite firstn_length. lia.
+Qed.
+
+(* ------------------------------------------------------------------ *)
+(* inet_ntop4                                                          *)
+(* ------------------------------------------------------------------ *)
+Lemma dec_u8_len v : (1 <= length (dec_u8 v) <= 3)%nat.
+Proof. unfold dec_u8. destruct (v <? 10); [|destruct (v <? 100)]; simpl; lia. Qed.
+
+Lemma fmt4_len src : 7 <= nlen (fmt4 src) /\ nlen (fmt4 src) <= 15.
+Proof.
+  unfold fmt4, nlen. rewrite !app_length. simpl length.
+  pose proof (dec_u8_len (byte_at src 0)). pose proof (dec_u8_len (byte_at src 1)).
+  pose proof (dec_u8_len (byte_at src 2)). pose proof (dec_u8_len (byte_at src 3)). lia.
+Qed.
+
+Lemma firstn_all2 {A} (l : list A) n : (length l <= n)%nat -> firstn n l = l.
+Proof. apply firstn_all2. Qed.
+
+Theorem ntop4_spec src size :
+  let text := fmt4 src in
+  (size <= nlen text -> inet_ntop4 src size = (UV_ENOSPC, [])) /\
+  (nlen text < size -> inet_ntop4 src size = (0%Z, text ++ [0])).
+Proof.
+  cbv zeta. unfold inet_ntop4. pose proof (fmt4_len src) as [Hlo Hhi].
+  assert (E0 : nlen (fmt4 src) <=? 0 = false) by (apply N.leb_gt; lia). rewrite E0. cbn [orb].
+  rewrite firstn_all2 by (unfold nlen in Hhi; lia).
+  split; intros H.
+  - apply N.leb_le in H. rewrite H. reflexivity.
+  - assert (E : size <=? nlen (fmt4 src) = false) by (apply N.leb_gt; lia). rewrite E.
+    rewrite strscpy_fits by (auto; simpl; lia). reflexivity.
+Qed.
+
+(* never writes at an index >= size; UV_ENOSPC iff text + NUL does not fit *)
+Theorem ntop4_bounded src size :
+  let r := inet_ntop4 src size in
+  nlen (snd r) <= size /\
+  (fst r = UV_ENOSPC <-> size < nlen (fmt4 src) + 1) /\
+  (fst r = 0%Z \/ fst r = UV_ENOSPC) /\
+  (fst r <> 0%Z -> snd r = []).
+Proof.
+  cbv zeta. destruct (ntop4_spec src size) as [H1 H2].
+  destruct (N.le_gt_cases size (nlen (fmt4 src))) as [H|H].
+  - rewrite (H1 H). cbn [fst snd]. repeat split; auto; try lia. unfold nlen; simpl; lia.
+  - rewrite (H2 H). cbn [fst snd]. repeat split; auto; try lia.
+    + rewrite nlen_app. unfold nlen at 2. simpl. lia.
+    + unfold UV_ENOSPC. discriminate.
+Qed.
+
+Lemma dec_u8_octet v : v < 256 -> octet_text (dec_u8 v) v.
+Proof.
+  intros Hv. unfold dec_u8, octet_text, dval, digit.
+  destruct (v <? 10) eqn:E1; [|destruct (v <? 100) eqn:E2].
+  - apply N.ltb_lt in E1. repeat split; try discriminate; try lia.
+    + repeat constructor; lia.
+    + intros t Ht. inversion Ht. reflexivity.
+    + cbn [fold_left]. unfold dstep. lia.
+  - apply N.ltb_ge in E1. apply N.ltb_lt in E2. repeat split; try discriminate; try lia.
+    + repeat constructor; lia.
+    + intros t Ht. exfalso. apply (f_equal (hd 0)) in Ht. cbn [hd] in Ht. lia.
+    + cbn [fold_left]. unfold dstep. lia.
+  - apply N.ltb_ge in E1. apply N.ltb_ge in E2. repeat split; try discriminate; try lia.
+    + repeat constructor; lia.
+    + intros t Ht. exfalso. apply (f_equal (hd 0)) in Ht. cbn [hd] in Ht. lia.
+    + cbn [fold_left]. unfold dstep. lia.
+Qed.
+
+Lemma fmt4_dotted a b c d :
+  a < 256 -> b < 256 -> c < 256 -> d < 256 -> dotted_quad (fmt4 [a; b; c; d]) [a; b; c; d].
+Proof.
+  intros. exists (dec_u8 a), (dec_u8 b), (dec_u8 c), (dec_u8 d), a, b, c, d.
+  split; [reflexivity|]. repeat (split; [apply dec_u8_octet; assumption|]). reflexivity.
+Qed.
+
+(* all 2^32 addresses: four octets, each < 256 *)
+Theorem ntop4_pton4_roundtrip a b c d size :
+  a < 256 -> b < 256 -> c < 256 -> d < 256 -> 16 <= size ->
+  exists t, uv_inet_ntop AF_INET [a; b; c; d] size = (0%Z, t ++ [0]) /\
+            ~ In 0 t /\
+            uv_inet_pton AF_INET (t ++ [0]) = (0%Z, [a; b; c; d]).
+Proof.
+  intros Ha Hb Hc Hd Hs. exists (fmt4 [a; b; c; d]).
+  assert (Hnz : ~ In 0 (fmt4 [a; b; c; d])).
+  { destruct (fmt4_dotted a b c d Ha Hb Hc Hd)
+      as (s0 & s1 & s2 & s3 & v0 & v1 & v2 & v3 & E & O0 & O1 & O2 & O3 & _).
+    rewrite E. intros Hin.
+    assert (Hoct : forall s v, octet_text s v -> ~ In 0 s).
+    { intros s v (_ & HF & _) Hi. rewrite Forall_forall in HF. apply HF in Hi.
+      unfold digit in Hi. lia. }
+    apply in_app_or in Hin. destruct Hin as [Hin|[Hin|Hin]];
+      [exact (Hoct _ _ O0 Hin)|discriminate|].
+    apply in_app_or in Hin. destruct Hin as [Hin|[Hin|Hin]];
+      [exact (Hoct _ _ O1 Hin)|discriminate|].
+    apply in_app_or in Hin. destruct Hin as [Hin|[Hin|Hin]];
+      [exact (Hoct _ _ O2 Hin)|discriminate|].
+    exact (Hoct _ _ O3 Hin). }
+  split; [|split; [exact Hnz|]].
+  - unfold uv_inet_ntop. cbn [Z.eqb AF_INET Pos.eqb].
+    apply ntop4_spec. pose proof (fmt4_len [a; b; c; d]). lia.
+  - unfold uv_inet_pton. cbn [Z.eqb AF_INET Pos.eqb].
+    assert (E : cstr (fmt4 [a; b; c; d] ++ [0]) = fmt4 [a; b; c; d]).
+    { clear -Hnz. induction (fmt4 [a; b; c; d]) as [|x l IH]; [reflexivity|].
+      simpl. destruct (x =? 0) eqn:E0.
+      - apply N.eqb_eq in E0. subst. exfalso. apply Hnz. left; reflexivity.
+      - f_equal. apply IH. intros H. apply Hnz. right; exact H. }
+    rewrite E. apply pton4_complete. apply fmt4_dotted; assumption.
+Qed.
